@@ -13,7 +13,9 @@ rc = KaniUnit("c02_rc", CORE, modules=[dict(file=COST, src="c07_cost.rs")],
 al = VerusUnit("al_astar", "al_astar", rlimit=60)
 cm = VerusUnit("c07_costmodel", "c07_costmodel", rlimit=30)
 sp = VerusUnit("c02_speed", "c02_speed", rlimit=30)
-UNITS = [al, cm, sp, rc]
+cw = KaniUnit("c02_cost_service_wit", "routee-compass", modules=[dict(file="routee-compass/src/app/compass/config/cost_model/cost_model_service.rs", src="c02_cost_service_wit.rs")], harnesses=[])
+cw.native_witnesses = ["c02_wit_query_rates_and_weights_are_the_ones_in_force"]
+UNITS = [al, cm, sp, rc, cw]
 EXPLANATION = ("NOT optimality. Decided: the relaxation mechanism of run_a_star as contracts on the verbatim driver (Verus): a label is replaced only by a strictly smaller cost-so-far equal to the near vertex' "
                "label plus the edge's total cost; the vertex is re-queued with f = g + weighted estimate and its queue priority is never worse than that f (invariant Q: catches push_increase/push_decrease "
                "mix-ups and flipped comparisons); advance_search hands out a queued vertex of least f-score (assumed contract of the priority_queue crate + ReverseCost's order reversal, proved by Kani); "
